@@ -190,6 +190,51 @@ def random_competition(rnd, N, hj, RVc):
     return c, hist
 
 
+def tied_competition(rnd, N, hj, RVc):
+    """complete competitions built to END IN A JUMP-OFF: the first k >= 2 athletes copy one card over the regular heights and all
+    fail out together (tied for first), the others jump at random; then up to 4 jump-off rounds (bar raised, repeated or
+    lowered) in which every participant attempts or retires at each height"""
+    c = hj.HighJumpCompetition()
+    bibs = HC.BIBS[:N]
+    for b in bibs:
+        c.add_jumper(bib=b)
+    hist = []
+
+    def do(m, *a):
+        try:
+            getattr(c, m)(*a)
+            hist.append((m, str(a[0])))
+            return True
+        except RVc:
+            return False
+    k = rnd.randint(2, N)
+    nreg = rnd.randint(1, 3)
+    h = Decimal('1.95')
+    cells = [rnd.choice(['o', 'xo', 'xxo', '-', 'x-']) for _ in range(nreg)] + ['xxx']
+    for hi, cell in enumerate(cells):
+        h += Decimal('0.05')
+        if not do('set_bar_height', h):
+            return c, hist
+        others = {b: rnd.choice(['o', 'xo', 'xxo', 'xxx', '-', 'x-', 'xx-', 'r', 'xr']) for b in bibs[k:]}
+        for t in range(3):
+            for i, b in enumerate(bibs):
+                cl = cell if i < k else others[b]
+                if t < len(cl):
+                    do({'o': 'cleared', 'x': 'failed', '-': 'passed', 'r': 'retired'}[cl[t]], b)
+    for rnd_no in range(4):
+        if c.state != 'jumpoff':
+            break
+        h = h + rnd.choice([Decimal('-0.02'), Decimal('0'), Decimal('0.02'), Decimal('-0.04')])
+        if not do('set_bar_height', h):
+            break
+        for b in bibs:
+            j = c.jumpers_by_bib[b]
+            if c.state != 'jumpoff' or j.eliminated or j.dismissed:
+                continue
+            do(rnd.choices(['cleared', 'failed', 'retired'], weights=[5, 5, 1])[0], b)
+    return c, hist
+
+
 def standin_chunk(args):
     seed, n, N = args
     rnd = random.Random(seed)
@@ -198,8 +243,8 @@ def standin_chunk(args):
     bad = []
     term = 0
     states = {}
-    for _ in range(n):
-        c, hist = random_competition(rnd, N, hj, RVc)
+    for it in range(n):
+        c, hist = (tied_competition if (it % 2 and N >= 2) else random_competition)(rnd, N, hj, RVc)
         states[c.state] = states.get(c.state, 0) + 1
         if c.state in ('finished', 'won', 'drawn'):
             term += 1
